@@ -156,6 +156,29 @@ class Body:
             self._pdom = self._dominators(self.pred, self.succ, self.exits)
         return self._pdom
 
+    def debug_assert_blocks(self):
+        """blocks that exist only to evaluate a `debug_assert!`: dominated by the taken side of the `if cfg!(debug_assertions)` switch the
+        macro expands to (a switch from the expansion on a literal), down to its panic"""
+        if getattr(self, '_dab', None) is not None:
+            return self._dab
+        out = set()
+        for bi, t in self.calls():
+            if not any(str(m).startswith('debug_assert') for m in (t.get('mac') or [])):
+                continue
+            for a in sorted(self.dom[bi], key=lambda x: -len(self.dom[x])):
+                ta = self.blocks[a]['term']
+                if a == bi or ta['k'] != 'switch' or not ta.get('exp') or ta['discr']['k'] not in ('copy', 'move') or ta['discr']['pl'].get('p'):
+                    continue
+                l = ta['discr']['pl']['l']
+                defs = [st for blk in self.blocks for st in blk['stmts'] if st['k'] == 'assign' and st['dst']['l'] == l and not st['dst'].get('p')]
+                if len(defs) == 1 and defs[0]['rv']['k'] == 'use' and defs[0]['rv']['op']['k'] == 'const' and defs[0].get('exp'):
+                    for sx in self.succ[a]:
+                        if sx == bi or self.dominates(sx, bi):
+                            out |= {x for x in range(self.n) if self.dominates(sx, x)}
+                    break
+        self._dab = out
+        return out
+
     def natural_loops(self):
         """list of (header, set(body blocks)) from back edges t->h with h dom t."""
         if getattr(self, '_nloops', None) is not None:
